@@ -23,6 +23,10 @@ type Meta struct {
 
 	// Total size of the slug in bytes.
 	Size int64
+
+	// The symlink entries written so far, name and target: scratch data of
+	// a Pack call, which checks them once the walk is over.
+	links map[string]string
 }
 
 // IllegalSlugError indicates the provided slug (io.Writer for Pack, io.Reader
@@ -202,6 +206,14 @@ func (p *Packer) Pack(src string, w io.Writer) (*Meta, error) {
 		return nil, err
 	}
 
+	// On disk a link was followed from where it is; in the slug it may sit
+	// somewhere else, inside the copy of a dereferenced directory.
+	err = meta.checkLinks()
+	meta.links = nil
+	if err != nil {
+		return nil, err
+	}
+
 	// Flush the tar writer.
 	if err := tarW.Close(); err != nil {
 		return nil, fmt.Errorf("failed to close the tar archive: %w", err)
@@ -305,12 +317,13 @@ func (p *Packer) packWalkFn(root, src, dst string, tarW *tar.Writer, meta *Meta,
 			if ok && src != dst && climbsAboveRoot(root, strings.Replace(path, src, dst, 1), target) {
 				ok = false
 			}
-			if ok && src == dst {
+			if ok {
 				// validSymlink reads the target as text. Followed the way the
 				// operating system does - through other links of the tree,
 				// "a -> ." and then "a/../x" - it may still leave the tree,
-				// and Unpack would refuse such a link.
-				if lerr := p.checkSymlinkStaysInside(root, path, target); lerr != nil {
+				// and Unpack would refuse such a link. Inside a dereferenced
+				// directory, staying within that directory is as good.
+				if lerr := p.checkSymlinkStaysInside(root, src, path, target); lerr != nil {
 					ok, err = false, lerr
 				}
 			}
@@ -318,6 +331,10 @@ func (p *Packer) packWalkFn(root, src, dst string, tarW *tar.Writer, meta *Meta,
 				// We can simply copy the link.
 				header.Typeflag = tar.TypeSymlink
 				header.Linkname = filepath.ToSlash(target)
+				if meta.links == nil {
+					meta.links = make(map[string]string)
+				}
+				meta.links[header.Name] = header.Linkname
 				break
 			} else if !p.dereference {
 				// If the target does not fall within the root and dereference
@@ -399,8 +416,12 @@ func (p *Packer) packWalkFn(root, src, dst string, tarW *tar.Writer, meta *Meta,
 // system would and fails if that leads out of root, unless the place it
 // reaches is one the Packer allows links to. Targets that do not exist, or
 // that loop, lead nowhere and are left to the textual rules.
-func (p *Packer) checkSymlinkStaysInside(root, path, target string) error {
+func (p *Packer) checkSymlinkStaysInside(root, src, path, target string) error {
 	realRoot, err := filepath.EvalSymlinks(root)
+	if err != nil {
+		return nil
+	}
+	realSrc, err := filepath.EvalSymlinks(src)
 	if err != nil {
 		return nil
 	}
@@ -419,7 +440,7 @@ func (p *Packer) checkSymlinkStaysInside(root, path, target string) error {
 		}
 		return p == dir || strings.HasPrefix(p, prefix)
 	}
-	if within(realRoot, resolved) {
+	if within(realRoot, resolved) || within(realSrc, resolved) {
 		return nil
 	}
 	for _, prefix := range p.allowSymlinkTargets {
@@ -436,6 +457,109 @@ func (p *Packer) checkSymlinkStaysInside(root, path, target string) error {
 			path, target,
 		),
 	}
+}
+
+// checkLinks follows every relative symlink entry through the entries of the
+// slug - the tree Unpack is going to create - and fails if one of them leads
+// out of it by way of another link, which Unpack would refuse. It reads paths
+// the way followSymlinks does: behind the first name that no entry provides,
+// the remaining segments are applied as text.
+func (m *Meta) checkLinks() error {
+	if len(m.links) == 0 {
+		return nil
+	}
+	exists := make(map[string]bool)
+	for _, name := range m.Files {
+		for name = strings.TrimSuffix(name, "/"); name != "." && name != ""; name = pathDir(name) {
+			exists[name] = true
+		}
+	}
+	for name, target := range m.links {
+		if !readsOutside(name, target) && m.linkLeaves(exists, name, target) {
+			return &IllegalSlugError{
+				Err: fmt.Errorf(
+					"invalid symlink (%q -> %q) leads outside of the slug by way of another symlink",
+					name, target,
+				),
+			}
+		}
+	}
+	return nil
+}
+
+func pathDir(name string) string {
+	if i := strings.LastIndex(name, "/"); i >= 0 {
+		return name[:i]
+	}
+	return ""
+}
+
+// readsOutside reports whether the link entry name -> target, read as text,
+// points out of the slug: such a target can only have been admitted through
+// AllowSymlinkTarget, or is an absolute one that leads into the source.
+func readsOutside(name, target string) bool {
+	if strings.HasPrefix(target, "/") {
+		return true
+	}
+	depth := strings.Count(name, "/")
+	for _, seg := range strings.Split(target, "/") {
+		switch seg {
+		case "", ".":
+		case "..":
+			if depth--; depth < 0 {
+				return true
+			}
+		default:
+			depth++
+		}
+	}
+	return false
+}
+
+// linkLeaves reports whether the link entry name -> target, which reads as
+// staying inside, leads out of the slug when other link entries on its way
+// are followed. Links that were admitted although they read as leading
+// outside are not followed any further.
+func (m *Meta) linkLeaves(exists map[string]bool, name, target string) bool {
+	var at []string
+	if dir := pathDir(name); dir != "" {
+		at = strings.Split(dir, "/")
+	}
+	pending := strings.Split(target, "/")
+	missing := false
+	for hops := 0; len(pending) > 0; {
+		seg := pending[0]
+		pending = pending[1:]
+		switch seg {
+		case "", ".":
+			continue
+		case "..":
+			if len(at) == 0 {
+				return true
+			}
+			at = at[:len(at)-1]
+			continue
+		}
+		at = append(at, seg)
+		if missing {
+			continue
+		}
+		here := strings.Join(at, "/")
+		if !exists[here] {
+			missing = true
+			continue
+		}
+		next, isLink := m.links[here]
+		if !isLink {
+			continue
+		}
+		if hops++; hops > 255 || readsOutside(here, next) {
+			return false
+		}
+		at = at[:len(at)-1]
+		pending = append(strings.Split(next, "/"), pending...)
+	}
+	return false
 }
 
 // resolveExternalSymlink attempts to recursively follow target paths if we
